@@ -117,6 +117,10 @@ func (p *Process) run() int {
 loop:
 	for {
 		err := p.setStateAndRun(p.getStartingStateName(), p.getProcessStarter())
+		if errors.Is(err, errStoppedBeforeLaunch) {
+			log.Debug().Str("process", p.getName()).Msg("process stopped before its command was launched")
+			break loop
+		}
 		if err != nil {
 			log.Error().Err(err).Msgf(`Failed to run command ["%v"] for process %s`, strings.Join(p.getCommand(), `" "`), p.getName())
 			p.logBuffer.Write(err.Error())
@@ -711,9 +715,19 @@ func (p *Process) getStatusName() string {
 	return p.procState.Status
 }
 
+// errStoppedBeforeLaunch is returned by setStateAndRun when a stop request
+// arrived before the command could be (re)launched.
+var errStoppedBeforeLaunch = errors.New("process stopped before launch")
+
 func (p *Process) setStateAndRun(state string, runnable func() error) error {
 	p.stateMtx.Lock()
 	defer p.stateMtx.Unlock()
+	// stopProcess cancels procRunCtx before it looks at the state: checking it
+	// here, under the state mutex, closes the window in which a process that is
+	// not running yet (pending, or between restarts) is stopped and launched anyway.
+	if p.procRunCtx.Err() != nil {
+		return errStoppedBeforeLaunch
+	}
 	p.procState.Status = state
 	p.onStateChange(state)
 	return runnable()
